@@ -183,7 +183,7 @@ impl Property for C06 {
             .boxed()
     }
     fn quota(tier: Tier) -> u64 {
-        tier.pick(300_000, 6_000_000)
+        tier.pick(3_000_000, 60_000_000)
     }
     fn rule() -> String {
         "All types: valid geometries from the scene generator (holes of either winding), degenerate ones (flat polygons, \
